@@ -15,6 +15,11 @@ PROFILES = ("debug", "release")
 SMALL_EXHAUSTIVE = 5
 
 
+def extra(res, cases, hv, driver):
+    from .. import forms
+    return {"form_level": forms.run_forms(res, ["bc"], sample=(6 if res.tier == "quick" else None))}
+
+
 def run(res):
     c01.run_generic(res, sys.modules[__name__])
 
